@@ -35,7 +35,7 @@ ANCHORS = [
     "acnportal.acnsim.events.stochastic_events:StochasticEvents._convert_ev_matrix",
     "acnportal.acnsim.models.battery:batt_cap_fn",
 ]
-REQUIRED = ["doc_batches_through_generate_events", "doc_evs_judged", "stoch_evs_judged", "fits_judged", "regime:fit-init-above-transition",
+REQUIRED = ["doc_batches_through_generate_events", "integer_typed_sample_matrices", "doc_evs_judged", "stoch_evs_judged", "fits_judged", "regime:fit-init-above-transition",
             "regime:fit-init-below-transition", "regime:max_len-capped", "regime:force_feasible-capped",
             "regime:doc-capacity_fn", "regime:stoch-capacity_fn", "gmm_evs_judged"]
 BUDGET_S = {"quick": 200, "thorough": 2400}
@@ -286,7 +286,11 @@ def _run_stoch(case, obs):
         P = 32 * V / 1000.0
     mats = []
 
+    int_samples = case["seed"] % 7 == 0  # whole-number samples handed over as an integer-typed matrix
+
     def draw():
+        if int_samples:
+            return [rng.randint(0, 23), rng.randint(1, 30), rng.randint(1, 90)]
         if case["dyadic"]:
             a = rng.randint(0, 24 * 64) / 64.0
             d = rng.randint(1, 40 * 64) / 64.0
@@ -298,8 +302,10 @@ def _run_stoch(case, obs):
 
     class Gen(StochasticEvents):
         def sample(self, n_samples):
-            m = np.array([draw() for _ in range(n_samples)])
-            mats.append(m.copy())
+            m = np.array([draw() for _ in range(n_samples)], dtype=(int if int_samples else float))
+            if int_samples and n_samples:
+                obs.ev("integer_typed_sample_matrices")
+            mats.append(m.astype(float))
             return m
 
     spd = [case["n"] if rng.random() < 0.8 else 0 for _ in range(case["days"])]
